@@ -125,6 +125,13 @@ func helperMain(args []string) {
 	switch args[0] {
 	case "call": // call <name> <path> <arg>
 		runtime.LockOSThread()
+		if s := os.Getenv("LF_UID"); s != "" {
+			uid, _ := strconv.Atoi(s)
+			if syscall.Setgroups([]int{}) != nil || syscall.Setgid(uid) != nil || syscall.Setuid(uid) != nil {
+				fmt.Println("RESULT nopriv")
+				return
+			}
+		}
 		if s := os.Getenv("LF_FSIZE"); s != "" {
 			// a genuine short write followed by an error: with RLIMIT_FSIZE = n and SIGXFSZ
 			// ignored, a write crossing offset n stores the bytes up to n and the rest
